@@ -114,12 +114,10 @@ Print Assumptions C12_firm_sum_nan.
 
 (* firm_is_murphy_quantile: without discounting, the FIRM kernel ("lower") IS the regenerated Murphy quantile
    elementary score at theta = threshold after murphy_score's NaN matching/merge: total, over and under, for every
-   finite-or-NaN forecast and EVERY observation and threshold -- finite, infinite or NaN (ties included).
-   The forecast is restricted to finite-or-NaN in the three Murphy theorems because murphy_impl.py builds its zero array as
-   `fcst * 0.0` (NaN for an infinite forecast: murphy_score then returns 0 instead of the penalty for the quantile and Huber
-   functionals -- a defect of murphy_score being repaired separately); FIRM itself is right there (C12_firm_single_spec_inf). *)
+   forecast, observation and threshold -- finite, infinite or NaN (ties included).
+   (Round 5: the forecast is no longer restricted to finite-or-NaN in the three Murphy theorems: murphy_impl.py built its zero
+   array as `fcst * 0.0`, NaN for an infinite forecast; since /repo 806a3e1 it is `xr.zeros_like(fcst, dtype=float)`.) *)
 Theorem C12_firm_is_murphy_quantile : forall (a : Q) (f o t : xv),
-  xisinf f = false ->
   let '(tot, over, under) := gen_firm_single f o (XFin a) t (XFin 0) "lower" in
   let '(mt, mo, mu) := murphy_point (fun f o t => gen_c12_murphy_quantile f o t (XFin a)) f o t in
   tot =x= mt /\ over =x= mo /\ under =x= mu.
@@ -127,9 +125,8 @@ Proof. exact firm_murphy_quantile. Qed.
 Print Assumptions C12_firm_is_murphy_quantile.
 
 (* firm_is_murphy_huber: with discount distance d > 0 it is the Murphy Huber elementary score with huber_a = d; infinite
-   observations and thresholds included *)
+   forecasts, observations and thresholds included *)
 Theorem C12_firm_is_murphy_huber : forall (a d : Q) (f o t : xv), 0 < d ->
-  xisinf f = false ->
   let '(tot, over, under) := gen_firm_single f o (XFin a) t (XFin d) "lower" in
   let '(mt, mo, mu) := murphy_point (fun f o t => gen_c12_murphy_huber f o t (XFin a) (XFin d)) f o t in
   tot =x= mt /\ over =x= mo /\ under =x= mu.
@@ -138,7 +135,6 @@ Print Assumptions C12_firm_is_murphy_huber.
 
 (* ... and with discount distance inf it is the Murphy expectile elementary score (an infinite distance is charged inf) *)
 Theorem C12_firm_is_murphy_expectile : forall (a : Q) (f o t : xv), 0 < a < 1 ->
-  xisinf f = false ->
   let '(tot, over, under) := gen_firm_single f o (XFin a) t (XInf true) "lower" in
   let '(mt, mo, mu) := murphy_point (fun f o t => gen_c12_murphy_expectile f o t (XFin a)) f o t in
   tot =x= mt /\ over =x= mo /\ under =x= mu.
